@@ -62,10 +62,16 @@ def main():
                [{"cat": "Shaped", "arr": "np", "dim": "y x"}, {"cat": "Int", "arr": "np", "dim": "x", "nest": [["Shaped", "y"]]}],
                [{"cat": "Float32", "arr": "np", "dim": "c", "nest": [["Float", "b"]]}, {"cat": "Float", "arr": "np", "dim": "b c"}],
                [{"cat": "Float", "arr": "np", "dim": "b c"}, {"cat": "Float32", "arr": "np", "dim": "c", "nest": [["Float", "b"]]}, {"cat": "Float", "arr": "any", "dim": "b c"}]]
+    # siblings: nested annotations that differ ONLY in the inner category (same outer category, array type, combined dims)
+    batches += [[{"cat": "Float", "arr": "np", "dim": "a", "nest": [["Shaped", "b"]]}, {"cat": "Int", "arr": "np", "dim": "a", "nest": [["Shaped", "b"]]}],
+                [{"cat": "Real", "arr": "np", "dim": "... c", "nest": [["Num", "b"]]}, {"cat": "Inexact", "arr": "np", "dim": "... c", "nest": [["Num", "b"]]}, {"cat": "Num", "arr": "np", "dim": "b ... c"}],
+                [{"cat": "Int8", "arr": "any", "dim": "a", "nest": [["Integer", ""]]}, {"cat": "UInt8", "arr": "any", "dim": "a", "nest": [["Integer", ""]]}]]
     for _ in range(120 if R.thorough else 14):
         a = gen_annot(R.rng)
         tw = flat_twin(a)
         b = [a] + ([tw] if tw else []) + [gen_annot(R.rng) for _ in range(R.rng.choice([0, 1, 2]))]
+        if a.get("nest") and R.rng.random() < .7:
+            b.append(dict(a, cat=R.rng.choice([c for c in CATS if c != a["cat"]])))
         R.rng.shuffle(b)
         batches.append(b)
     d = tempfile.mkdtemp(prefix="vfc20")
